@@ -11,9 +11,10 @@
    [complete_in rs p k] k = number of records of [file_of rs] lying wholly inside its prefix p *)
 From Coq Require Import ZArith List Bool.
 From PTK Require Import Lib.Sx Lib.Py Model.C13_Utf8 Model.C13_HistFile Model.C13_Threaded
-  Model.C13_ThreadedF2 Model.C13_ThreadedLate
+  Model.C13_ThreadedF2 Model.C13_ThreadedF3 Model.C13_ThreadedLate Model.C13_Inline
   Proofs.C13_Utf8Facts Proofs.C13_HistFileFacts Proofs.C13_ThreadedFacts
-  Proofs.C13_ThreadedF2Facts Proofs.C13_ThreadedLateFacts Proofs.C13_ComposeFacts.
+  Proofs.C13_ThreadedF2Facts Proofs.C13_ThreadedF3Facts Proofs.C13_ThreadedLateFacts
+  Proofs.C13_ComposeFacts Proofs.C13_InlineFacts.
 Import ListNotations.
 Open Scope Z_scope.
 
@@ -231,6 +232,83 @@ Theorem C13_threaded_window_fixed_f2 :
   map c_out (t_cons st) = [[snew; sb; sa]; [snew; sb; sa]] /\ map c_fin (t_cons st) = [true; true].
 Proof. exact window_fixed_f2. Qed.
 Print Assumptions C13_threaded_window_fixed_f2.
+
+(* SECOND proposed repair of C13-F2 (fixes/C13-postpone-store-until-snapshot.patch,
+   Model/C13_ThreadedF3.v, NOT the code of /repo): the slow read of the wrapped
+   history stays OUTSIDE the lock; a string appended between the first load()
+   and the loader's snapshot is cached at once but stored only after the
+   snapshot.  Exactly-once for EVERY schedule, no exclusion. *)
+Theorem C13_threaded_exactly_once_f3 : forall S0 sched c,
+  let st := trun4 (tinit3 S0) sched in
+  In c (s_cons st) ->
+  (c_fin c = true -> c_out c = rev (c_start c)) /\
+  (c_fin c = false -> pre (c_out c) (rev (c_start c))) /\
+  (s_loaded st = true -> s_ls st = rev (s_store st) /\ s_later st = []).
+Proof. exact threaded_exactly_once_f3. Qed.
+Print Assumptions C13_threaded_exactly_once_f3.
+
+Theorem C13_threaded_window_fixed_f3 :
+  let st := trun4 (tinit3 [sa; sb]) window_sched4 in
+  s_store st = [sa; sb; snew; sc] /\ s_ls st = [sc; snew; sb; sa] /\
+  map c_out (s_cons st) = [[sb; sa]; [sc; snew; sb; sa]] /\ map c_fin (s_cons st) = [true; true].
+Proof. exact window_fixed_f3. Qed.
+Print Assumptions C13_threaded_window_fixed_f3.
+
+(* A torn file under a threaded load, one statement (C13_torn o
+   C13_threaded_over_file): cut the file at ANY byte, run the threaded system
+   over those bytes under any covered schedule that stores nothing before the
+   loader has read the file: every finished load() yields what was appended
+   before it started, then at most one damaged string, then the k completed
+   entries intact and in order. *)
+Theorem C13_torn_threaded : forall (ts_of : str -> bytes),
+  (forall s, nolf (ts_of s)) ->
+  forall rs0 p sfx sched,
+  Forall valid_rec rs0 -> p ++ sfx = file_of rs0 -> Forall label_valid sched ->
+  let S0 := rev (load_bytes p) in
+  ok_sched (tinit S0) sched = true -> nes_sched (tinit S0) sched = true ->
+  exists k d, complete_in rs0 p k /\ (length d <= 1)%nat /\
+    (p = file_of (firstn k rs0) -> d = []) /\
+    fst (crun ts_of (tinit S0, p) sched) = trun (tinit S0) sched /\
+    forall c, In c (t_cons (trun (tinit S0) sched)) -> c_fin c = true ->
+      exists tail, c_out c = rev tail ++ d ++ rev (firstn k (map snd rs0)).
+Proof. exact torn_threaded. Qed.
+Print Assumptions C13_torn_threaded.
+
+(* Inline loading (History.load, the reference the threaded result is compared
+   with).  Without an append during the iteration: k steps yield the first k
+   entries of the storage, newest first, and it ends after all of them - the
+   same list a finished threaded load() yields (C13_threaded_exactly_once). *)
+Theorem C13_inline_no_append : forall S0 k,
+  let st := irun (iinit S0) (repeat INext k) in
+  i_out st = firstn k (rev S0) /\ (i_done st = true <-> (length S0 < k)%nat).
+Proof. exact inline_no_append. Qed.
+Print Assumptions C13_inline_no_append.
+
+(* With an append during the iteration: in EVERY state in which something was
+   already yielded, append_string then the next step yields the last entry
+   again (the list iterator is an index, insert(0) shifts the list) ... *)
+Theorem C13_inline_append_duplicates : forall st s x,
+  i_done st = false -> nth_error (i_ls st) (Nat.pred (i_idx st)) = Some x -> (1 <= i_idx st)%nat ->
+  i_out (irun st [IAppend s; INext]) = i_out st ++ [x].
+Proof. exact inline_append_duplicates. Qed.
+Print Assumptions C13_inline_append_duplicates.
+
+(* ... so exactly-once is false for inline loading as well (finding C13-F3;
+   a,b,c: two steps, append NEW, go on: c,b,b,a). *)
+Theorem C13_inline_exactly_once_refuted :
+  ~ (forall S0 sched, NoDup (i_store (irun (iinit S0) sched)) -> NoDup (i_out (irun (iinit S0) sched))).
+Proof. exact inline_exactly_once_refuted. Qed.
+Print Assumptions C13_inline_exactly_once_refuted.
+
+(* Proposed repair (fixes/C13-inline-load-snapshot.patch: iterate over a copy,
+   [istep_fixed]): every schedule yields a prefix of the cache as it was when
+   load() started, all of it when the iterator is done - what the threaded
+   load() yields since commit 0c2cbbe. *)
+Theorem C13_inline_fixed_exactly_once : forall S0 sched,
+  let st := irun_fixed (iinit S0) sched in
+  pre (i_out st) (rev S0) /\ (i_done st = true -> i_out st = rev S0).
+Proof. exact inline_fixed_exactly_once. Qed.
+Print Assumptions C13_inline_fixed_exactly_once.
 
 (* Non-vacuity. *)
 Example C13_valid_rec_somewhere :
